@@ -27,7 +27,7 @@ theorem splice_drop (b : Bytes) (lo : Nat) (d : Bytes) (h : lo + d.length ≤ b.
     (splice b lo d).drop (lo + d.length) = b.drop (lo + d.length) := by
   unfold splice
   have h1 : (b.take lo).length = lo := by simp; omega
-  simp [h1]
+  simp [List.drop_append, h1]
 
 theorem sub_splice (b : Bytes) (lo : Nat) (d : Bytes) (h : lo + d.length ≤ b.length) :
     sub (splice b lo d) lo d.length = d := by
